@@ -576,7 +576,10 @@ func (qd *queueDelivery) Body(ctx context.Context, header textproto.Header, body
 	}
 
 	qd.body = storedBody
-	qd.header = header
+	// The caller keeps using its header object (textproto.Header shares its
+	// storage with copies made by assignment): what the first attempt sends
+	// must be what was just stored.
+	qd.header = header.Copy()
 	return nil
 }
 
